@@ -12,7 +12,7 @@ from .. import nets
 PID = "C12"
 RULE = (
     "case = hypergraph (any label kind, permuted / gapped / string IDs, multi-edges, singletons, isolated nodes, possibly "
-    "no edges or none of a requested order) with optional positive edge weights + order/weight lists for the multi-order "
+    "no edges or none of a requested order) with optional non-negative edge weights (0 included) + order/weight lists for the multi-order "
     "Laplacian; for every case the whole option grid order in {None,0,1,2,3} x sparse x s in {1,2,3} x weighted x "
     "rescale_per_node is evaluated and every entry of the incidence, adjacency, degree, intersection-profile, "
     "clique-motif, adjacency-tensor, order-d / multi-order / normalised Laplacian is compared, through the returned "
@@ -32,7 +32,7 @@ ASSUMPTIONS = [
 def cases(draw, tier):
     spec = draw(nets.net_spec(wide_labels="mixed", cls="H", max_edges=7, max_size=4, allow_empty=False, with_attrs=False))
     m = len(spec["edges"])
-    ws = draw(st.lists(st.sampled_from([0.5, 1, 1, 2, 3, 10]), min_size=m, max_size=m))
+    ws = draw(st.lists(st.sampled_from([0, 0.5, 1, 1, 2, 3, 10]), min_size=m, max_size=m))  # non-negative, 0 included
     use_w = draw(st.booleans())
     for e, w in zip(spec["edges"], ws):
         if use_w:
@@ -229,7 +229,8 @@ def run_case(case, ctx):
         for weighted in (False, True):
             w = np.array([w_attr[e] if weighted else 1.0 for e in edges], float)
             Dv = Im @ w
-            want = np.eye(n) - np.diag(Dv ** -0.5) @ Im @ np.diag(w) @ np.diag(1 / De) @ Im.T @ np.diag(Dv ** -0.5)
+            with np.errstate(divide="ignore", invalid="ignore"):  # a node all of whose edges weigh 0 has no textbook row (inf/nan never match)
+                want = np.eye(n) - np.diag(Dv ** -0.5) @ Im @ np.diag(w) @ np.diag(1 / De) @ Im.T @ np.diag(Dv ** -0.5)
             Dv_unw = Im.sum(1)
             lib_formula = np.eye(n) - np.diag(Dv_unw ** -0.5) @ Im @ np.diag(w) @ np.diag(1 / De) @ Im.T @ np.diag(Dv_unw ** -0.5)
             nonunit = weighted and any(x != 1 for x in w)
